@@ -50,6 +50,7 @@ pub fn evaluate_with<W>(program: &Program, state: &mut State, output: &mut W) ->
     while let Some(address) = state.instruction_pointer.get() {
         let opcode = program.code.get(address)?;
         eval_opcode(program, state, output, opcode)?;
+        #[cfg(kondziu_fml_verif)] crate::verif::hooks::on_step(program, state, address, opcode);
     }
     Ok(())
 }
